@@ -82,6 +82,16 @@ theorem independent_run (ops : List Heap.Op) : ∀ (h : Heap.H), Heap.Sep h → 
     simp only [Heap.run, List.foldl_cons] at h1 h2 ⊢
     exact ⟨h1, by rw [h2, hstep.2]⟩
 
+/-- the same with no hypothesis on the heap at all: in every state reachable from the empty heap by any
+    program `pre`, any continuation that does not act on instance `i` leaves `i`'s dicts as they were -/
+theorem independent_in_every_reachable_state (pre ops : List Heap.Op) (i p a : Nat)
+    (hact : ∀ op ∈ ops, op.actor ≠ some i)
+    (hsl : (Heap.run true Heap.H.empty pre).slot i p = some a) :
+    (Heap.run true Heap.H.empty (pre ++ ops)).slot i p = some a ∧
+    (Heap.run true Heap.H.empty (pre ++ ops)).cells a = (Heap.run true Heap.H.empty pre).cells a := by
+  have := independent_run ops (Heap.run true Heap.H.empty pre) (Heap.sep_run pre _ Heap.sep_empty) i p a hact hsl
+  simpa [Heap.run, List.foldl_append] using this
+
 /-- clone then work on the clone, for any amount of work: the original's dicts are what they were
     before the clone was taken -/
 theorem clone_then_any_ops (h : Heap.H) (hs : Heap.Sep h) (i j : Nat) (hij : i ≠ j) (ps : List Nat)
